@@ -19,16 +19,26 @@ func vfAddr11() netip.Addr {
 
 func vfI11(a, b bool) bool { return !a || b }
 
+var vfWithDiscovered bool
+
 // vfEntry builds an arbitrary system-producible routing entry: a direct-peer
 // entry (no path, as AddLink adds it) or a gossip entry with 2..H hops, totals
 // and routing prefix as AddRoute computes them.
 func vfEntry(rt *RoutingTable, H int) *RoutingTableEntry {
 	e := &RoutingTableEntry{DstIP: vfAddr11(), NextHop: vfAddr11(), Stub: vf.Bool()}
-	if vf.Choose(2) == 0 {
+	kinds := 2
+	if vfWithDiscovered {
+		kinds = 3 // the clean harness also holds routes of source "discovered" (kept beyond the gossip limit, must still expire)
+	}
+	kind := vf.Choose(kinds)
+	if kind == 0 {
 		e.Source = RouteSourcePeer
 		e.NextHop = e.DstIP
 	} else {
 		e.Source = RouteSourceGossip
+		if kind == 2 {
+			e.Source = RouteSourceDiscovered
+		}
 		nh := 2 + vf.Choose(H-1)
 		e.Path.Hops = make([]SwitchHop, nh)
 		for i := range e.Path.Hops {
@@ -311,6 +321,7 @@ func vfAddCheck(rt *RoutingTable, ne *RoutingTableEntry, limit int) {
 // route survives, peers are kept, at most `limit` entries per routing prefix
 // remain apart from non-gossip ones, and the table is sorted for routing again.
 func VfC11Clean() {
+	vfWithDiscovered = true
 	n := vf.Choose(vf.Param("N") + 1)
 	limit := vf.Choose(3)
 	rt := vfTable(n, vf.Param("H"), limit)
@@ -347,13 +358,25 @@ func VfC11Clean() {
 		if e.Source != RouteSourceGossip {
 			continue
 		}
-		same := 0
+		// the property bounds the GOSSIP routes of a prefix; the code counts every entry of the
+		// prefix against the limit, which is stronger as long as the prefix holds no discovered
+		// route (those are kept beyond the limit and must expire instead)
+		same, gossip, disc := 0, 0, false
 		for _, o := range rt.entries {
 			if o.RoutingPrefix == e.RoutingPrefix {
 				same++
+				if o.Source == RouteSourceGossip {
+					gossip++
+				}
+				if o.Source == RouteSourceDiscovered {
+					disc = true
+				}
 			}
 		}
-		vf.Assert(same <= limit || limit == 0 && false, "gossip-entries-over-limit-after-clean")
+		vf.Assert(gossip <= limit, "gossip-entries-over-limit-after-clean")
+		if !disc {
+			vf.Assert(same <= limit, "gossip-entries-over-limit-after-clean")
+		}
 	}
 	vf.Reach("done")
 }
